@@ -42,6 +42,7 @@ THEOREMS = {
             "Rot.C14_index_sequence_eq", "Rot.write_dropped", "Rot.C14_index_nothing_dropped_without_overwrite",
             "Rot.C14_junk_removed_by_cleanup", "Rot.C14_write_mode_without_cleanup_overwrites",
             "Rot.C14_F30_json_counts_statement_size", "Rot.writeC_self",
+            "Rot.C14_index_all_files_within_limit", "Rot.write_limInv", "Rot.restart_limInv", "Rot.C14_stopped_file_rotated_oversized",
             # rendered names for any base file name (Props/C14Render.lean)
             "Rot.C14_render_injective", "Rot.C14_render_collides_across_schemes", "Rot.C14_rendered_names_distinct_partial",
             "Rot.C14_scan_sees_rotated", "Rot.C14_F28_no_extension_scan_blind", "Rot.C14_F29_append_option_scan_blind",
